@@ -115,3 +115,129 @@ Proof.
     + intros tags d _. simpl. split; discriminate.
     + intros tags d0 _. apply scan_act_out.
 Qed.
+
+(* ---------- C19: the scan's termination budget ---------- *)
+Lemma ok_terminations_okterm calls : ok_terminations calls = okterm calls.
+Proof. reflexivity. Qed.
+
+Lemma ok_calls_le calls : ok_calls calls <= zlen calls.
+Proof.
+  unfold ok_calls. induction calls as [|c l IH]; [unfold zlen; simpl; lia|]. simpl. rewrite zlen_cons.
+  destruct c; try lia. destruct ok; lia.
+Qed.
+
+Lemma try_delete_budget e g cands calls err a' :
+  try_delete_nodes e (Some g) cands = (calls, err, a') ->
+  exists g', a' = Some g' /\ asg_rel g g' /\ a_desired g' = a_desired g - okterm calls /\
+             (okterm calls = 0 \/ a_min g <= a_desired g - okterm calls).
+Proof.
+  intros H. destruct (try_delete_c04 _ _ _ _ _ _ H) as (g' & -> & Hrel & Hd & _). exists g'. splits; auto.
+  unfold try_delete_nodes in H. destruct cands as [|c0 cs] eqn:Ec; [inversion H; subst; left; reflexivity|]. rewrite <- Ec in H.
+  destruct (aws_delete_nodes g cands (ao_terminasg_fail (e_aorc e))) as [[ac r] g1] eqn:Ed.
+  assert (Hk : okterm calls = ok_calls ac).
+  { rewrite okterm_acalls. destruct r; try (inversion H; subst; rewrite acalls_of_liftA; reflexivity).
+    destruct (delete_nodes (e_korc e) (map n_name cands)) as [kc ok]. inversion H; subst.
+    rewrite acalls_of_app, acalls_of_liftA, acalls_of_liftK, app_nil_r. reflexivity. }
+  rewrite Hk. unfold aws_delete_nodes in Ed.
+  destruct (a_desired g <=? a_min g) eqn:E1; [inversion Ed; subst; left; reflexivity|].
+  destruct (a_desired g - zlen cands <? a_min g) eqn:E2; [inversion Ed; subst; left; reflexivity|].
+  apply Z.ltb_ge in E2. right.
+  pose proof (delete_loop_spec cands g (ao_terminasg_fail (e_aorc e))) as Hs. rewrite Ed in Hs. destruct Hs as (_ & Hlen & _).
+  pose proof (ok_calls_le ac). lia.
+Qed.
+
+Lemma budget_quiet x calls : okterm calls = 0 -> check_C19_budget x calls = true.
+Proof. intros H. unfold check_C19_budget. rewrite ok_terminations_okterm, H. reflexivity. Qed.
+
+Lemma okterm_no_term calls : (forall c, In c calls -> match c with CA (ATermInAsg _ _ _) => False | _ => True end) -> okterm calls = 0.
+Proof.
+  intros H. unfold okterm. induction calls as [|c l IH]; [reflexivity|]. simpl.
+  rewrite IH by (intros c' Hc'; apply H; right; exact Hc').
+  specialize (H c (or_introl eq_refl)). destruct c as [k|[]]; try reflexivity. contradiction.
+Qed.
+
+Lemma liftK_okterm l : okterm (liftK l) = 0.
+Proof. rewrite okterm_acalls, acalls_of_liftK. reflexivity. Qed.
+
+Lemma scale_up_okterm e o mx dry st a tainted want : okterm (up_calls (scale_up e o mx dry st a tainted want)) = 0.
+Proof.
+  unfold scale_up. destruct (match tainted with [] => _ | _ => _ end) as [[ucalls ucount] tr].
+  destruct (0 <? want - ucount); [|apply liftK_okterm]. destruct a as [g|]; [|apply liftK_okterm].
+  destruct (nodes_to_add _ _ _ <=? 0); [apply liftK_okterm|]. destruct dry; [apply liftK_okterm|].
+  pose proof (aws_increase_asks g (nodes_to_add (want - ucount) (a_desired g) (Z.min mx (a_max g))) (e_aorc e)) as Ha.
+  destruct (aws_increase g _ (e_aorc e)) as [[ac r] g']. simpl in Ha.
+  assert (Hac : okterm (liftA ac) = 0).
+  { apply okterm_no_term. intros c Hc. unfold liftA in Hc. apply in_map_iff in Hc. destruct Hc as [k [<- Hk]].
+    rewrite forallb_forall in Ha. specialize (Ha k Hk). destruct k; simpl in *; try exact I. discriminate. }
+  destruct r; simpl; rewrite okterm_app, liftK_okterm, Hac; reflexivity.
+Qed.
+
+Lemma scale_down_taint_okterm e o mn dry st unt want : okterm (fst (fst (scale_down_taint e o mn dry st unt want))) = 0.
+Proof.
+  unfold scale_down_taint. destruct (_ <? 0); [reflexivity|]. destruct (taint_loop _ _ _ _ _ _ _) as [[kc cnt] tr]. simpl. apply liftK_okterm.
+Qed.
+
+Theorem group_budget_C19 now gdry api g a nodes pods :
+  check_C19_budget (ctx_of now gdry api g a nodes pods) (r_calls (scan_of now gdry api g a nodes pods)) = true.
+Proof.
+  set (x := ctx_of now gdry api g a nodes pods).
+  assert (Hasg : x_asg x = a) by reflexivity.
+  apply (scan_of_frame (fun r => check_C19_budget x (r_calls r) = true) now gdry api g a nodes pods x eq_refl).
+  all: clearbody x.
+  - intros. apply budget_quiet. reflexivity.
+  - intros _ _ _ tags. apply budget_quiet. apply scale_up_okterm.
+  - intros _ _ _ _ cpuP memP _. split.
+    + intros tags d _. apply budget_quiet. apply lag_okterm.
+    + intros tags d0 _. unfold scan_act. unfold check_C19_budget. rewrite Hasg.
+      set (lag := liftA (registration_lag_calls _ _ _)).
+      assert (Hlag : okterm lag = 0) by apply lag_okterm.
+      destruct a as [g0|].
+      2:{ (* no cloud group: TryDeleteNodes refuses, nothing is terminated *)
+          assert (Hnone : forall cands, okterm (fst (fst (try_delete_nodes (x_env x) None cands))) = 0 /\ snd (try_delete_nodes (x_env x) None cands) = None).
+          { intros cands. unfold try_delete_nodes. destruct cands; split; reflexivity. }
+          destruct (try_delete_nodes (x_env x) None (force_candidates _ _ _)) as [[fcalls ferr] a1] eqn:Ef.
+          pose proof (Hnone (force_candidates (x_dry x) (x_pods x) (c_forced (x_cls x)))) as [Hf1 Hf2]. rewrite Ef in Hf1, Hf2. simpl in Hf1, Hf2. subst a1.
+          match goal with |- context [if ?d <? 0 then _ else _] => set (d2 := d) end.
+          destruct (d2 <? 0).
+          - destruct (try_delete_nodes (x_env x) None (reap_candidates _ _ _ _ _)) as [[rcalls rerr] a2] eqn:Er.
+            pose proof (Hnone (reap_candidates (x_env x) (x_opts x) (x_dry x) (x_pods x) (c_tainted (x_cls x)))) as [Hr1 _]. rewrite Er in Hr1. simpl in Hr1.
+            pose proof (scale_down_taint_okterm (x_env x) (x_opts x) (x_min x) (x_dry x) (with_lock (x_st x) (snd (lock_check (g_lock (x_st x)) (e_now (x_env x)) (o_cool (x_opts x))))) (c_untainted (x_cls x)) (- d2)) as Ht.
+            destruct (scale_down_taint _ _ _ _ _ _ _) as [[tcalls terr] st3]. simpl in Ht.
+            destruct rerr as [[|]|]; simpl; rewrite ok_terminations_okterm, !okterm_app, ?Hlag, ?Hf1, ?Hr1, ?Ht; reflexivity.
+          - destruct (0 <? d2).
+            + pose proof (scale_up_okterm (x_env x) (x_opts x) (x_max x) (x_dry x) (with_lock (x_st x) (snd (lock_check (g_lock (x_st x)) (e_now (x_env x)) (o_cool (x_opts x))))) None (c_tainted (x_cls x)) d2) as Hu.
+              destruct (up_out _); simpl; rewrite ok_terminations_okterm, !okterm_app, Hlag, Hf1, Hu; reflexivity.
+            + destruct (try_delete_nodes (x_env x) None (reap_candidates _ _ _ _ _)) as [[rcalls rerr] a2] eqn:Er.
+              pose proof (Hnone (reap_candidates (x_env x) (x_opts x) (x_dry x) (x_pods x) (c_tainted (x_cls x)))) as [Hr1 _]. rewrite Er in Hr1. simpl in Hr1.
+              destruct rerr as [[|]|]; simpl; rewrite ok_terminations_okterm, !okterm_app, ?Hlag, ?Hf1, ?Hr1; reflexivity. }
+      destruct (try_delete_nodes (x_env x) (Some g0) (force_candidates _ _ _)) as [[fcalls ferr] a1] eqn:Ef.
+      destruct (try_delete_budget _ _ _ _ _ _ Ef) as (g1 & -> & Hrel1 & Hd1 & Hb1).
+      assert (Hmin1 : a_min g1 = a_min g0) by (destruct Hrel1 as (_ & H & _); exact H).
+      match goal with |- context [if ?d <? 0 then _ else _] => set (d2 := d) end.
+      assert (Hfinal : forall rest, okterm rest = 0 ->
+                (ok_terminations (lag ++ fcalls ++ rest) =? 0) || (ok_terminations (lag ++ fcalls ++ rest) <=? a_desired g0 - a_min g0) = true).
+      { intros rest Hrest. rewrite ok_terminations_okterm, !okterm_app, Hlag, Hrest.
+        destruct Hb1 as [Hb1|Hb1]; [rewrite Hb1; reflexivity|].
+        apply orb_true_iff. right. apply Z.leb_le. lia. }
+      assert (Hreap : forall rcalls rerr a2 rest, try_delete_nodes (x_env x) (Some g1) (reap_candidates (x_env x) (x_opts x) (x_dry x) (x_pods x) (c_tainted (x_cls x))) = (rcalls, rerr, a2) ->
+                okterm rest = 0 ->
+                (ok_terminations (lag ++ fcalls ++ rcalls ++ rest) =? 0) || (ok_terminations (lag ++ fcalls ++ rcalls ++ rest) <=? a_desired g0 - a_min g0) = true).
+      { intros rcalls rerr a2 rest Er Hrest. destruct (try_delete_budget _ _ _ _ _ _ Er) as (g2 & _ & _ & _ & Hb2).
+        rewrite ok_terminations_okterm, !okterm_app, Hlag, Hrest.
+        destruct Hb2 as [Hb2|Hb2].
+        - rewrite Hb2. destruct Hb1 as [Hb1|Hb1]; [rewrite Hb1; reflexivity|]. apply orb_true_iff. right. apply Z.leb_le. lia.
+        - apply orb_true_iff. right. apply Z.leb_le. lia. }
+      destruct (d2 <? 0).
+      * destruct (try_delete_nodes (x_env x) (Some g1) (reap_candidates _ _ _ _ _)) as [[rcalls rerr] a2] eqn:Er.
+        pose proof (scale_down_taint_okterm (x_env x) (x_opts x) (x_min x) (x_dry x) (with_lock (x_st x) (snd (lock_check (g_lock (x_st x)) (e_now (x_env x)) (o_cool (x_opts x))))) (c_untainted (x_cls x)) (- d2)) as Ht.
+        destruct (scale_down_taint _ _ _ _ _ _ _) as [[tcalls terr] st3]. simpl in Ht.
+        destruct rerr as [[|]|]; simpl.
+        -- eapply Hreap; eauto.
+        -- rewrite <- (app_nil_r rcalls). eapply Hreap; eauto.
+        -- eapply Hreap; eauto.
+      * destruct (0 <? d2).
+        -- pose proof (scale_up_okterm (x_env x) (x_opts x) (x_max x) (x_dry x) (with_lock (x_st x) (snd (lock_check (g_lock (x_st x)) (e_now (x_env x)) (o_cool (x_opts x))))) (Some g1) (c_tainted (x_cls x)) d2) as Hu.
+           destruct (up_out _); simpl; apply Hfinal; exact Hu.
+        -- destruct (try_delete_nodes (x_env x) (Some g1) (reap_candidates _ _ _ _ _)) as [[rcalls rerr] a2] eqn:Er.
+           destruct rerr as [[|]|]; simpl; rewrite <- (app_nil_r rcalls); eapply Hreap; eauto.
+Qed.
